@@ -118,6 +118,44 @@ var (
 	c21ParentPool = []string{"trace.parent_id", "parentId", "parent_id", "pid"}
 )
 
+func c21Contains(xs []string, x string) bool {
+	for _, y := range xs {
+		if y == x {
+			return true
+		}
+	}
+	return false
+}
+
+// c21Sampler picks the sampler definition of the destination: none of interest
+// (deterministic), a dynamic sampler whose FieldList, or a rules sampler whose conditions,
+// name configured ID fields, unconfigured ID-ish fields and filler fields.
+func c21Sampler(rng *verifkit.Rand, traceNames, parentNames []string) (kind string, fields []string, cfg any) {
+	k := rng.Intn(10)
+	if k < 3 {
+		return "deterministic", nil, &config.DeterministicSamplerConfig{SampleRate: 1}
+	}
+	pool := append(append(append([]string{}, traceNames...), parentNames...), "f0", "f1", "verif.id")
+	pool = append(pool, c21TracePool[rng.Intn(len(c21TracePool))], c21ParentPool[rng.Intn(len(c21ParentPool))])
+	verifkit.Shuffle(rng, pool)
+	seen := map[string]bool{}
+	for _, f := range pool[:rng.Range(1, 5)] {
+		if !seen[f] {
+			seen[f] = true
+			fields = append(fields, f)
+		}
+	}
+	if k < 7 {
+		return "dynamic", fields, &config.DynamicSamplerConfig{SampleRate: 1, FieldList: fields}
+	}
+	rules := &config.RulesBasedSamplerConfig{}
+	for _, f := range fields {
+		rules.Rules = append(rules.Rules, &config.RulesBasedSamplerRule{Name: "r-" + f, SampleRate: 1,
+			Conditions: []*config.RulesBasedSamplerCondition{{Field: f, Operator: "exists"}}})
+	}
+	return "rules", fields, rules
+}
+
 func c21Subset(rng *verifkit.Rand, pool []string, lo, hi int) []string {
 	p := append([]string(nil), pool...)
 	verifkit.Shuffle(rng, p)
@@ -274,7 +312,7 @@ func c21Judge(run *verifkit.Run, enc string, m c21Model, got c21Observed, rep in
 func TestVerif_C21(t *testing.T) {
 	run := verifkit.Start(t, "C21", "route")
 	defer run.Finish()
-	run.Rule("per case: PRNG-chosen TraceNames/ParentNames lists (1-4 / 0-3 names from small pools, random order) and an event whose payload carries a random subset of configured and unconfigured ID-ish fields, meta.trace_id, meta.signal_type and filler fields in random payload order with values typed {non-empty string, empty string, int, float, bool, nil, array, map}; sent 8x identically through each of /1/events JSON+msgpack and /1/batch JSON+msgpack on the incoming or peer listener (plus OTLP traces/logs over HTTP and gRPC with attributes named like configured ID fields); non-trivial = event holds >=2 distinct non-empty configured trace-ID strings, or meta.trace_id together with an ID field, or a parent ID, or is a log; distinct = (encoding, id class, root class, relative payload order of the held ID fields vs configured order)")
+	run.Rule("per case: PRNG-chosen TraceNames/ParentNames lists (1-4 / 0-3 names from small pools, random order) and an event whose payload carries a random subset of configured and unconfigured ID-ish fields, meta.trace_id, meta.signal_type and filler fields in random payload order with values typed {non-empty string, empty string, int, float, bool, nil, array, map}; while the destination's sampler is deterministic, dynamic (FieldList) or rules-based (conditions) over PRNG-chosen fields that include configured ID fields; sent 8x identically through each of /1/events JSON+msgpack and /1/batch JSON+msgpack on the incoming or peer listener (plus OTLP traces/logs over HTTP and gRPC with attributes named like configured ID fields); non-trivial = event holds >=2 distinct non-empty configured trace-ID strings, or meta.trace_id together with an ID field, or a parent ID, or is a log; distinct = (encoding, id class, root class, relative payload order of the held ID fields vs configured order)")
 	run.Assume("the recording collector/transmission snapshots are taken synchronously inside the handler; Span.TraceID/IsRoot handed to Collector.AddSpan* is the router's final answer")
 	run.Assume("for OTLP the event's field set is read back from the payload handed to the collector (husky decides it), the statement is then applied to that field set")
 
@@ -290,7 +328,13 @@ func TestVerif_C21(t *testing.T) {
 		}
 		traceNames := c21Subset(rng, c21TracePool, nTrace, nTrace)
 		parentNames := c21Subset(rng, c21ParentPool, 0, 3)
-		b.Config(func(c *config.MockConfig) { c.TraceIdFieldNames, c.ParentIdFieldNames = traceNames, parentNames })
+		// The destination's sampler may name ID fields among its key / condition fields
+		// (ingestion memoizes those "sampling key fields" in the same pass that detects IDs).
+		samplerKind, keyFields, samplerCfg := c21Sampler(rng.Fork("sampler"), traceNames, parentNames)
+		b.Config(func(c *config.MockConfig) {
+			c.TraceIdFieldNames, c.ParentIdFieldNames = traceNames, parentNames
+			c.GetSamplerTypeVal = samplerCfg
+		})
 		enc := encs[i%len(encs)]
 		isMsgpack := strings.HasSuffix(enc, "msgpack")
 		lst := E3Incoming
@@ -357,7 +401,7 @@ func TestVerif_C21(t *testing.T) {
 				seenIDs[k][got.TraceID] = true
 				e := e
 				if c21Judge(run, enc, e.model, got, rep, func() map[string]any {
-					return map[string]any{"trace_names": traceNames, "parent_names": parentNames, "payload_in_order": e.kvs,
+					return map[string]any{"trace_names": traceNames, "parent_names": parentNames, "sampler": samplerKind, "sampler_key_fields": keyFields, "payload_in_order": e.kvs,
 						"listener": lst.String(), "request": req.Witness(), "response": resp}
 				}) {
 					wrong[k]++
@@ -386,7 +430,16 @@ func TestVerif_C21(t *testing.T) {
 						held = append(held, "m")
 					}
 				}
-				run.Nontrivial(strings.Join([]string{enc, m.idClass(), m.rootClass(), strings.Join(held, "")}, "|"))
+				// does the sampler read a field that also decides identity / root status here?
+				keyed := ""
+				for _, kv := range e.kvs {
+					if c21IsNonEmptyStr(kv.Val) && c21Contains(keyFields, kv.Key) && (c21Contains(traceNames, kv.Key) || c21Contains(parentNames, kv.Key)) {
+						keyed = "id-field-is-sampler-key"
+						run.Count("events_whose_held_id_field_is_a_sampler_key", 1)
+						break
+					}
+				}
+				run.Nontrivial(strings.Join([]string{enc, m.idClass(), m.rootClass(), strings.Join(held, ""), keyed}, "|"))
 			}
 		}
 		if i < 3 {
